@@ -301,7 +301,8 @@ def step (s : ApiState) (c : Call) : ApiState × Ret :=
     if s.refs ≠ 0 then (s, .oop)
     else if fails then (s, .null)
     else
-      let s0 : ApiState := { iters := s.iters, lats := s.lats, alns := s.alns, refs := 1, nextObj := s.nextObj }
+      let s0 : ApiState := { iters := s.iters, lats := s.lats, alns := s.alns, built := s.built, refs := 1,
+                             nextObj := s.nextObj }
       match loadGrammar s0 g with
       | (s2, .ok) => (s2, .ptr)
       | _ => (s, .null)            -- decoder_init frees the half-built decoder
@@ -494,7 +495,10 @@ def step (s : ApiState) (c : Call) : ApiState × Ret :=
       if s.search = .none then (s, .err)
       else if s.utt ≠ .inUtt then (s, .err)
       else
-        ({ s with utt := .ended, active := false, dagFresh := s.dagFresh && !adv, alFresh := s.alFresh && !adv }, .ok)
+        -- the aligner made for the partial result is released (decoder.c: "an alignment made for a partial result
+        -- no longer describes it"), its iterators die
+        ({ s with utt := .ended, active := false, dagFresh := s.dagFresh && !adv, align := false, alFresh := false,
+                  iters := invalidate isAliD s.iters }, .ok)
     | .hyp e => (s, ptrIf (decide (s.search = .used) && e))
     | .prob => (s, if s.search = .none then .err else .count)
     | .nframes => (s, .count)
